@@ -222,7 +222,8 @@ def parse_psy(text):
             continue
         mat = _IF_DIRTY.match(low)
         if mat:
-            if guard or stack:
+            if guard or (stack and not (len(stack) == 1 and
+                                        stack[0]["space"] == "colours")):
                 raise HarnessError(f"unexpected IF nesting at {raw!r}")
             guard = (mat.group(1), mat.group(2).strip())
             continue
@@ -233,7 +234,8 @@ def parse_psy(text):
             continue
         mat = _HX.match(low)
         if mat:
-            if stack:
+            if stack and not (len(stack) == 1 and
+                              stack[0]["space"] == "colours"):
                 raise HarnessError("halo exchange inside a loop")
             field, suffix, depth = mat.group(1), mat.group(2), \
                 mat.group(3).strip()
@@ -243,7 +245,8 @@ def parse_psy(text):
             mode = {None: "sync", "_start": "start",
                     "_finish": "finish"}[suffix]
             events.append({"ev": "hx", "field": field, "depth": depth,
-                           "guard": bool(guard), "mode": mode})
+                           "guard": bool(guard), "mode": mode,
+                           "in_colours": bool(stack)})
             continue
         if guard:
             raise HarnessError(f"unexpected statement in IF block: {raw!r}")
@@ -591,6 +594,21 @@ def execute(events, recs, spec, mesh_depth, init):
             dep = eval_depth(evt["depth"], env)
             if not 1 <= dep <= mesh_depth:
                 raise DomainError(f"exchange depth {dep}")
+            if evt.get("in_colours"):
+                # The exchange is repeated for every colour.  With a
+                # run-time guard only the first repetition can execute (the
+                # flags are not updated inside the loop); an unguarded one
+                # re-exchanges the field between the colours.
+                nxt = next(e for e in events[num:] if e["ev"] == "loop")
+                written = {a["f"] for c in nxt["calls"]
+                           for a in recs[c["rec"]]["args"]
+                           if a["acc"] != "gh_read"}
+                if not evt["guard"] and fld in written:
+                    return ("c:exchange_in_colours_loop",
+                            f"unconditional halo exchange of f{fld} inside "
+                            f"the loop over colours that updates f{fld}: "
+                            f"the partially updated field is exchanged "
+                            f"between colours")
             run = (not evt["guard"]) or dep > flags[fld]
             if evt["mode"] == "sync":
                 if fld in inflight:
